@@ -602,6 +602,7 @@ Proof.
   destruct (creator_eqb c CRoot && existsb (fun sc => creator_eqb (snd sc) CRoot) (steps st));
     [discriminate|].
   destruct (dir_inputs (sort_uniq inps)); cbn [bind] in H; [|discriminate].
+  destruct (creator_eqb c (CStep lbl)); [discriminate|].
   destruct (glob_check gm (globs st) lbl (sort_uniq (sort_uniq outs ++ sort_uniq vols))) as [u|] eqn:Eg;
     cbn [bind] in H; [|discriminate].
   apply unit_res_tt in Eg.
